@@ -90,6 +90,13 @@ Theorem C18_components_file : forall c n,
   = of_res (normalize (mkComponents (c_meta c) (map rt_energy (c_data c)) (rt_needs (c_needs c)))).
 Proof. exact components_file_roundtrip. Qed.
 
+(** the same with the hypotheses as one computable test (evaluated by the check on every components set the
+    implementation writes: how often the theorem speaks is part of the evidence) *)
+Theorem C18_components_file_computable : forall c, file_hypb c = true ->
+  parse_components (show_components c)
+  = of_res (normalize (mkComponents (c_meta c) (map rt_energy (c_data c)) (rt_needs (c_needs c)))).
+Proof. exact components_file_roundtrip_b. Qed.
+
 Example C18_components_file_example :
   let c := mkComponents [mkMeta (cs "CTE_AREAREF") (cs "100.00")]
                         [EUsed 1 ELECTRICIDAD ACS [qfrac 1001 8; qfrac 5 2] (cs "bomba, de calor # 1"); EProd 1 EL_INSITU [qfrac 10 1; qfrac 7 3] [];
@@ -166,3 +173,4 @@ Print Assumptions C18_metadata_line.
 Print Assumptions C18_factors_file.
 Print Assumptions C18_saved_factors_evaluate_the_same.
 Print Assumptions C18_components_file.
+Print Assumptions C18_components_file_computable.
